@@ -12,27 +12,39 @@ def atc_line(exit_code: int) -> str:
 
 
 def scripted_case(tc: str, end_step, end_o: str, cleanup_o: str, atc_exit: int, n_per_phase: int = 1,
-                  end_idx: int = 1, extra=None, real_assert: bool = True):
+                  end_idx: int = 1, extra=None, real_assert: bool = True, real=None):
     """end_step: ('-','-') for a run without a failing forward step, else (step, phase) of ExecSteps.Forward.
 
-    extra: {phase: [lines]} real instructions appended after the stubs of a phase."""
+    extra: {phase: [lines]} real instructions appended after the stubs of a phase.
+    real: a REAL instruction (or, for an act step, the contents of [act]; "CONF-LINE | ACT-LINE" to select an actor) that
+    produces the outcome end_o at end_step by itself - it replaces the scripted stub / actor."""
     step, phase = end_step
     extra = extra or {}
     conf = []
     if tc != 'PASS':
         conf.append('status = %s' % tc)
     exeinput = (step, phase) == ('exeinput', 'act')   # scripted through the stdin a setup instruction installs
-    stub_actor = phase == 'act' and not exeinput
+    stub_actor = phase == 'act' and not exeinput and real is None
+    real_act = None
+    if real is not None and phase == 'act':
+        if ' | ' in real:
+            c, real_act = real.split(' | ', 1)
+            conf.append(c)
+        else:
+            real_act = real
     if stub_actor:
         conf.append('verif-actor %s=%s exit=%d' % (step, end_o, atc_exit))
     if phase == 'conf':
-        conf.append('verif-stub 1 main=%s' % end_o)
+        conf.append(real if real is not None else 'verif-stub 1 main=%s' % end_o)
 
     def stubs_for(ph):
         lines = []
         for i in range(1, n_per_phase + 1):
             script = ''
             if ph == phase and i == end_idx:
+                if real is not None:
+                    lines.append(real)
+                    continue
                 script = ' %s=%s' % (step, end_o)
             if exeinput and ph == 'setup' and i == 1:
                 script += ' stdin=%s' % end_o
@@ -45,10 +57,10 @@ def scripted_case(tc: str, end_step, end_o: str, cleanup_o: str, atc_exit: int, 
     if conf:
         parts.append('[conf]\n' + '\n'.join(conf) + '\n')
     parts.append('[setup]\n' + '\n'.join(stubs_for('setup')) + '\n')
-    parts.append('[act]\n' + ('stub action\n' if stub_actor else atc_line(atc_exit) + '\n'))
+    parts.append('[act]\n' + ('stub action\n' if stub_actor else (real_act or atc_line(atc_exit)) + '\n'))
     parts.append('[before-assert]\n' + '\n'.join(stubs_for('ba')) + '\n')
     a = stubs_for('assert')
-    if real_assert and not stub_actor:
+    if real_assert and not stub_actor and real_act is None:
         a.append('exit-code == %d' % atc_exit)
     parts.append('[assert]\n' + '\n'.join(a) + '\n')
     parts.append('[cleanup]\n' + '\n'.join(stubs_for('cleanup')) + '\n')
